@@ -93,10 +93,17 @@ def cases(draw):
 
 
 def parts(tier):
-    return [Part('pipeline', cases(), quick=420, thorough=1500)]
+    from . import c07
+    return [Part('pipeline', cases(), quick=420, thorough=1500),
+            # executor-level scenario on the virtual clock: start-up reported in time, then the task
+            # runs longer than its start-up limit (CANCELED only if a timeout was requested and hit)
+            Part('startup_report', enum=c07.startup_cases)]
 
 
 def normalise(case):
+    if isinstance(case, dict) and case.get('kind') == 'sweep':
+        from . import c07
+        return c07.normalise(case)
     try:
         ops = []
         for op in case.get('ops', []):
@@ -118,6 +125,16 @@ def normalise(case):
 
 
 def run_case(case):
+    if case.get('kind') == 'sweep':
+        from . import execsim
+        xs = execsim.run_schedule(case)
+        res = CaseResult()
+        for p, sig, msg in xs.problems:
+            if p == 'C05':
+                res.fail(sig, msg)
+        res.nontrivial = bool(xs.started_clean)
+        res.label('executor:startup_report')
+        return res
     sim = pipesim.run_pipeline(case)
     res = CaseResult()
     seen = set()
